@@ -37,6 +37,27 @@ def gen(rnd):
         vel = [v0 * (1.0 + k * dv) for k in range(nlay)]
         X = rnd.choice([2.0, 6.0, 10.0])
         angle = rnd.choice([20.0, 30.0, 45.0])
+    elif rnd.random() < 0.3:
+        # interface depths as a user writes them (decimal kilometres, metres with one decimal): not dyadic, so sums and
+        # differences of depths round
+        scale = rnd.choice([1.0, 1.0, 0.5, 1000.0])
+        nd = 1 if scale == 1000.0 else 2
+        cuts = sorted({round(scale * rnd.uniform(0.02, 4.0) * rnd.choice([0.1, 1.0, 1.0]), nd) for _ in range(nlay)})
+        cuts = [v for v in cuts if v > 0]
+        if rnd.random() < 0.6:
+            # ... and in particular depths for which top + (bottom - top) is not bottom in binary64 (about 2 % of decimal pairs):
+            # any bookkeeping that re-derives an interface depth from a thickness lands one ulp beside the interface
+            for _ in range(400):
+                a = round(scale * rnd.uniform(0.02, 0.5), nd)
+                b = round(a + scale * rnd.uniform(0.3, 2.0), nd)
+                if a > 0 and a + (b - a) != b:
+                    cuts = [a, b] + [round(b + scale * 0.7 * (j + 1), nd) for j in range(rnd.randint(1, 3))]
+                    angle = rnd.uniform(5, 40)
+                    break
+        inter = cuts
+        nlay = len(inter)
+        vel = (vel * 6)[:nlay]
+        X = X * (1000.0 if scale == 1000.0 else 1.0)
     dtype = "float"
     if rnd.random() < 0.2:
         # a velocity model given in whole units (e.g. m/s) as an integer array
